@@ -241,6 +241,18 @@ def gen_T15():
     cp = tree('plugins/Config/plugin.py')
     need('registry.open_registry(world.registryFilename)' in ast.unparse(find_def(cp, '_reload')), 'Config._reload changed')
     config_reset_forgets()
+    # the plugin API: exact descent on the write path, lenient getSpecific on the read path
+    cb = tree('src/callbacks.py')
+    srv = ast.unparse(find_def(cb, 'setRegistryValue', 'PluginMixin'))
+    for frag in ("if network:\n        group = group.get(':' + network)", "if channel:\n        group = group.get(channel)", 'group.setValue(value)'):
+        need(frag in srv, 'PluginMixin.setRegistryValue changed (expected `%s`)' % frag.replace('\n', ' / '))
+    need('getSpecific' not in srv, 'PluginMixin.setRegistryValue resolves its target with getSpecific (a read resolver)')
+    rrv = ast.unparse(find_def(cb, 'registryValue', 'PluginMixin'))
+    need('if channel or network:\n        group = group.getSpecific(network=network, channel=channel)' in rrv, 'PluginMixin.registryValue changed')
+    gsp = ast.unparse(find_def(t, 'getSpecific', 'Value'))
+    for frag in ('if channel and (not ircutils.isChannel(channel)):\n        channel = None', 'if world.getIrc(network) is None:\n            network = None',
+                 'if network_value._wasSet or network_channel_value._wasSet:'):
+        need(frag in gsp, 'Value.getSpecific changed (expected `%s`)' % frag.replace('\n', ' / '))
     progs = atomic_programs()
     out += ('(* order of validation / side effects / store in X.set and X.setValue, inlined along the MRO *)\n'
             'Inductive stm : Type :=\n| SSkip | SCheck | SError | SAssign\n| SSeq (a b : stm) | SIf (a b : stm) | STry (body handler : stm).\n')
